@@ -296,7 +296,7 @@ Lemma scan_step cap id fuel w fr offset oid dat id' d' Y :
     off2 <= length w2 /\ length w2 < off2 + npfbl /\ skipn off2 (w2 ++ fr2) = d' ++ Y.
 Proof.
   intros Hcap Ho Hn Hs [Hid Hd] E. simpl in Hid, Hd. cbn [scan_loop]. rewrite E.
-  pose proof npfbl_ge as G. pose proof (rprefix_length id' (length d') Hid) as Lp.
+  pose proof npfbl_ge as G. pose proof cdo_val as CV. pose proof (rprefix_length id' (length d') Hid) as Lp.
   set (l := length dat). set (o2 := offset + l). set (n := length w).
   assert (S2 : skipn o2 (w ++ fr) = rprefix id' (length d') ++ d' ++ Y).
   { unfold o2. rewrite Nat.add_comm, <- skipn_skipn', Hs. rewrite skipn_exact by reflexivity.
@@ -308,7 +308,7 @@ Proof.
     { rewrite skipn_app. unfold w1, fr1. fold n. destruct (n <? o2) eqn:D.
       - apply Nat.ltb_lt in D. rewrite Nat.min_r by lia. unfold n. rewrite skipn_all. rewrite (skipn_all2 (n:=o2) w) by (fold n; lia). reflexivity.
       - apply Nat.ltb_ge in D. rewrite Nat.min_l by lia. replace (o2 - n) with 0 by lia. reflexivity. }
-    assert (Lw1 : length w1 < combined_data_off). { unfold w1; rewrite skipn_length; fold n. Show. lia. }
+    assert (Lw1 : length w1 < combined_data_off). { unfold w1; rewrite skipn_length; fold n. lia. }
     replace (cap <? length w1 + npfbl) with false by (symmetry; apply Nat.ltb_ge; lia).
     assert (Ltot : combined_data_off <= length w1 + length fr1).
     { assert (H : length (w1 ++ fr1) = length (rprefix id' (length d') ++ d' ++ Y)) by congruence.
@@ -363,7 +363,7 @@ Lemma read_header_combined cap id rs tail r :
 Proof.
   intros Hcap W F NE. destruct rs as [|[id0 d0] rs]; [discriminate|].
   inversion W as [|? ? [Hid Hd] W']; subst. simpl in Hid, Hd.
-  pose proof npfbl_ge as G. pose proof (rprefix_length id0 (length d0) Hid) as Lp.
+  pose proof npfbl_ge as G. pose proof cdo_val as CV. pose proof (rprefix_length id0 (length d0) Hid) as Lp.
   set (file := records ((id0, d0) :: rs) ++ tail).
   assert (Ef : file = rprefix id0 (length d0) ++ d0 ++ records rs ++ tail).
   { unfold file. change (records ((id0, d0) :: rs)) with (record id0 d0 ++ records rs).
